@@ -281,6 +281,11 @@ func scCounterfeit(r *Run) {
 		c.listed = r.Intn("listed", 2) == 0
 		if c.listed {
 			authKeys.AddKey(c.id.leaf.PublicKey)
+		} else if r.Intn("listed", 2) == 0 {
+			// the key WAS authorized once (a consumed grant, an edited file): listed, then removed again
+			authKeys.AddKey(c.id.leaf.PublicKey)
+			authKeys.RemoveKey(c.id.leaf.PublicKey)
+			r.CountFault("counterfeit-key-listed-then-removed", 1)
 		}
 		c.tag = fmt.Sprintf("client-%d-%s", i, fakeNames[kind])
 		cls = append(cls, c)
